@@ -195,6 +195,14 @@ def _worker_init():
 
     signal.signal(signal.SIGINT, signal.SIG_IGN)
     faulthandler.register(signal.SIGUSR1, all_threads=False)  # kill -USR1 <worker> dumps its Python stack
+    try:  # a worker never outlives the runner (PR_SET_PDEATHSIG = 1)
+        import ctypes
+
+        ctypes.CDLL(None).prctl(1, int(signal.SIGKILL))
+        if os.getppid() == 1:
+            os._exit(0)
+    except Exception:
+        pass
 
 
 def _call(args):
@@ -247,6 +255,13 @@ def close_pool():
         pool, _POOL = _POOL, None
         # kill the workers outright: Pool.terminate()/join() can wait for ever on workers that are in the middle of a
         # long task after a harness error (seen: the runner never exited when its output was a pipe)
+        try:
+            # stop the pool's maintenance thread first: it would replace killed workers with new ones, which then
+            # outlive the runner and keep its output pipe open
+            pool._worker_handler._state = 'TERMINATE'
+            pool._state = 'TERMINATE'
+        except Exception:
+            pass
         for p in list(getattr(pool, '_pool', []) or []):
             try:
                 p.kill()
